@@ -101,8 +101,11 @@ func closePipe(n *Named, name string) {
 
 	n.mutex.Lock()
 
-	n.pipes[name].Pipe.Close()
-	delete(n.pipes, name)
+	// the pipe may already have gone: closed twice, or deleted in the meantime
+	if p := n.pipes[name].Pipe; p != nil {
+		p.Close()
+		delete(n.pipes, name)
+	}
 
 	n.mutex.Unlock()
 }
@@ -121,9 +124,9 @@ func (n *Named) Delete(name string) error {
 		return errors.New("null pipe must not be closed")
 	}
 
-	n.mutex.Unlock()
-
 	delete(n.pipes, name)
+
+	n.mutex.Unlock()
 	return nil
 }
 
